@@ -9,6 +9,17 @@ NOTE = ("Trusted: Lean 4.33 kernel (axioms propext, Classical.choice, Quot.sound
         "differential correspondence streams named here (agreement on generated inputs, not a proof of the tie). ")
 
 CLAIMS = {
+ 'C11': dict(
+   text="Lean theorems over ALL inputs: trivia_before_token (white space in every lexer state, white space and newline-terminated comments outside {…}), "
+        "trivia_after_token (after ANY token that is not a key/value run, inserting trivia admitted in the state it leaves changes neither that token, nor the "
+        "state, nor anything after it: the `cut` lemma on maximal-munch runs with the generated rune tables), trivia_at_start / trivia_at_end, "
+        "underscore_optional (+ item level), leading_zero / duration_leading_zeros, unicode_signs_lex / unicode_signs_mean / same_accidental_same_chord, "
+        "accepted_accidental_honoured (from C03's conv_sound: the emitted degree measures the written letter AND accidental). Tie: 700 (10,000) pairs "
+        "(canonical text, random spelling variant: trivia placements, underscore, leading zeros, Unicode signs) through the real `crd text conv`, the two real "
+        "outputs compared byte for byte with each other and both with the model.",
+   note="Known finding (kept, not fixed): a `;` comment directly after `_` is an error (white space there is fine) - the theorems state the admitted trivia per "
+        "lexer state precisely (after `_` and inside {…} only white space).",
+   technique="Lean 4 proof: lexer as a step function, fuel-independence, cut lemma for maximal-munch runs; real-vs-real differential pairs", ref="6 (C11)"),
  'C04': dict(
    text="Lean theorems for ALL token lists and ALL strings: parser_decides_grammar (the model's parser accepts a token list iff its kinds are derivable from "
         "`result` by the 28 productions of chords.y, taken as DATA regenerated from the .y file on every run: Derives <-> spelled-out language <-> "
